@@ -14,7 +14,9 @@ A real `paramiko.SFTPServer` (its own thread, the unmodified request loop) is co
 * `Worker(knobs)`    - a persistent application thread: `.call(fn, deadline)` returns when fn returns, when
                        the served file reports a spinning request loop, or at the deadline (no polling, no
                        thread start per call: thread start costs ~10 ms on the loaded machine).
-* `watchdog(fn, s)`  - run fn in a daemon thread with a deadline: ("ok", v) | ("exc", e) | ("hang", None).
+* `StreamRunner`     - raw request streams for the server half of C30 (`render_request`, `parse_response`).
+* `ProgramRunner`    - application programs (prefetch / read / readv / pipelined writes / put / get) on the real
+                       client, one trace record per call, blocked calls detected by proven quiescence.
 """
 import os
 import socket
@@ -390,6 +392,13 @@ class Session:
         self.c.close()
         self.s.close()
 
+    def server_idle_for(self):
+        """seconds for which the server has been back in recv() with nothing to read and nothing of its output
+        unread: it has finished with every request it was sent (raw mode)"""
+        if not self.s.waiting or self.s.buf or self.c.buf or self._rawbuf:
+            return 0.0
+        return time.time() - max(self.s.last_move, self.c.last_move)
+
     def quiet_for(self):
         """seconds for which nothing has moved while BOTH the client side and the server sit in recv() with
         nothing to read (0.0 if either is doing something).  A client call that stays in this state is not
@@ -446,73 +455,7 @@ def u64(x):
     return struct.pack(">Q", x & 0xFFFFFFFFFFFFFFFF)
 
 
-def watchdog(fn, seconds):
-    """run fn() in a daemon thread; ("ok", value) | ("exc", exception) | ("hang", None)"""
-    box = []
-
-    def body():
-        try:
-            box.append(("ok", fn()))
-        except BaseException as e:  # noqa
-            box.append(("exc", e))
-    t = threading.Thread(target=body, daemon=True, name="app")
-    t.start()
-    t.join(seconds)
-    if t.is_alive():
-        return ("hang", None)
-    return box[0]
-
-
-def pattern(n, salt=0):
-    """n bytes in which every aligned 4-byte word encodes its own offset (so a slice identifies itself)"""
-    words = (n + 3) // 4
-    out = bytearray()
-    for i in range(words):
-        out += struct.pack(">I", (i * 2654435761 + salt * 40503 + i) & 0xFFFFFFFF)
-    return bytes(out[:n])
-
-
-# --------------------------------------------------------------------------- guarded calls
-
-def guarded(fn, knobs, deadline, poll=0.002):
-    """run fn() in a thread until it returns, the served file reports a spinning request loop
-    (Knobs.SPIN consecutive empty reads), or `deadline` seconds pass.
-    -> (("ok", v) | ("exc", e) | ("hang", "spin" | "deadline"), thread)"""
-    box = []
-
-    def body():
-        try:
-            box.append(("ok", fn()))
-        except BaseException as e:  # noqa
-            box.append(("exc", e))
-    t = threading.Thread(target=body, daemon=True, name="app")
-    t.start()
-    end = time.time() + deadline
-    while True:
-        t.join(poll)
-        if not t.is_alive():
-            return box[0], t
-        if knobs is not None and knobs.spinning.is_set():
-            return ("hang", "spin"), t
-        if time.time() >= end:
-            return ("hang", "deadline"), t
-
-
-def unwedge(sess, thread=None, wait=5.0):
-    """after a recorded hang: make the spinning server loop raise, wait for the blocked caller to get the
-    late failure status; True if the session is usable again"""
-    kn = sess.knobs
-    kn.abort = True
-    ok = True
-    if thread is not None:
-        thread.join(wait)
-        ok = not thread.is_alive()
-    else:
-        time.sleep(0.05)
-    kn.abort = False
-    kn.reset_counts()
-    return ok
-
+# --------------------------------------------------------------------------- calls under a watchdog
 
 class Worker:
     """a persistent application thread with a watchdog"""
@@ -718,8 +661,8 @@ class StreamRunner:
     every response packet that carries its id: fills q["resp"], q["stuck"], q["foreign"], q["h"], q["t"].
     q["hsel"](issued) chooses (token, handle bytes) from the handle strings issued so far (token n = the n-th)."""
 
-    def __init__(self, sess, deadline, poll=0.005):
-        self.sess, self.deadline, self.poll = sess, deadline, poll
+    def __init__(self, sess, deadline, poll=0.005, idle=0.5):
+        self.sess, self.deadline, self.poll, self.idle = sess, deadline, poll, idle
         self.issued = []
         self.byid = {}
         self.foreign = 0
@@ -751,6 +694,8 @@ class StreamRunner:
                     q["stuck"], q["why"] = True, "request loop spinning (%d consecutive empty reads)" % sess.knobs.SPIN
                 elif not sess.server.is_alive():
                     q["stuck"], q["why"] = True, "server thread ended"
+                elif sess.server_idle_for() >= self.idle:
+                    q["stuck"], q["why"] = True, "the server went back to waiting for requests without answering"
                 elif time.time() >= end:
                     q["stuck"], q["why"] = True, "no response within %.0f s" % self.deadline
                 continue
